@@ -178,6 +178,31 @@ func lemmaCanaryOffset(index int64, rs int32) {
 //@ props CANARY
 //@ requires 1 <= index && index <= 1000 && 0 <= rs
 
+// ---------------------------------------------------------------------------------------------
+// C10: sub-interval tick encoder (IEEE-754 binary64 model, see executor contracts). T = 2^32 ticks per interval.
+
+//@ ghost func tableIPD(n int) bool = n == 86400 || n == 8640 || n == 2880 || n == 1440 || n == 288 || n == 96 || n == 48 || n == 24 || n == 12 || n == 6 || n == 1
+
+//@ func IndexToTimeDepr
+//@ props C10
+//@ option floatmodel
+//@ option floatconv-check
+//@ option instantiate intervalsPerDay: 86400,8640,2880,1440,288,96,48,24,12,6,1
+//@ requires #index: 1 <= index && index <= 366*intervalsPerDay
+//@ ensures #abs: abs(result) == civilYearStart(year, time.UTC) + ((index-1)*86400/intervalsPerDay)*1000000000
+//@ ensures #loc: loc(result) == time.UTC
+
+//@ func GetIntervalTicks32Bit
+//@ props C10
+//@ option floatmodel
+//@ option floatconv-check
+//@ option instantiate intervalsPerDay: 86400,8640,2880,1440,288,96,48,24,12,6,1
+//@ requires #index: 1 <= index && index <= 366*intervalsPerDay
+//@ requires #year: 1 <= civilYear(abs(ts), loc(ts)) && civilYear(abs(ts), loc(ts)) <= 32767
+//@ requires #inInterval: 0 <= abs(ts) - (civilYearStart(civilYear(abs(ts), loc(ts)), time.UTC) + ((index-1)*86400/intervalsPerDay)*1000000000) && abs(ts) - (civilYearStart(civilYear(abs(ts), loc(ts)), time.UTC) + ((index-1)*86400/intervalsPerDay)*1000000000) < 86400000000000/intervalsPerDay
+//@ ensures #hi: real(result) <= real(abs(ts) - (civilYearStart(civilYear(abs(ts), loc(ts)), time.UTC) + ((index-1)*86400/intervalsPerDay)*1000000000))*4294967296.0*real(intervalsPerDay)/86400000000000.0*1.000000000000001
+//@ ensures #lo: real(result) >= real(abs(ts) - (civilYearStart(civilYear(abs(ts), loc(ts)), time.UTC) + ((index-1)*86400/intervalsPerDay)*1000000000))*4294967296.0*real(intervalsPerDay)/86400000000000.0*0.999999999999999 - 1.0
+
 // ---- C30 lemmas (Go functions verified against the contracts above) ----
 
 // Sub-day timeframes: index -> time -> index is the identity, and time -> index -> time is the start of
